@@ -32,27 +32,31 @@ def in_loop():
 
 
 class _Base:
-    def _constructed(self, name, fail_after=0):
+    def __bool__(self):
+        return not getattr(self, "falsy", False)
+
+    def _constructed(self, name, fail_after=0, falsy=False):
         self.name = name
         self.fail_after = fail_after
+        self.falsy = falsy  # an element may be falsy (an empty group pool, say)
         log("constructed", name, in_loop())
 
 
 class DPool(Pool, _Base):
     supply, demand, utilisation, allocation = 0, 0, 1.0, 1.0
 
-    def __init__(self, name="pool", fail_after=0):
-        self._constructed(name, fail_after)
+    def __init__(self, name="pool", fail_after=0, falsy=False):
+        self._constructed(name, fail_after, falsy)
 
 
 class DDeco(PoolDecorator, _Base):
-    def __init__(self, target, name="deco", fail_after=0):
+    def __init__(self, target, name="deco", fail_after=0, falsy=False):
         super().__init__(target)
-        self._constructed(name, fail_after)
+        self._constructed(name, fail_after, falsy)
 
 
 class DBadCtor(PoolDecorator, _Base):
-    def __init__(self, target, name="bad", fail_after=0):
+    def __init__(self, target, name="bad", fail_after=0, falsy=False):
         log("constructed", name, in_loop())
         raise TypeError("DBadCtor rejects its arguments")
 
@@ -103,36 +107,36 @@ def _beat_thread(self):
 
 @service(flavour=trio)
 class DCtrlTrio(Controller, _Base):
-    def __init__(self, target, name="ctrl", fail_after=0):
+    def __init__(self, target, name="ctrl", fail_after=0, falsy=False):
         super().__init__(target)
-        self._constructed(name, fail_after)
+        self._constructed(name, fail_after, falsy)
 
     run = _beat_trio
 
 
 @service(flavour=asyncio)
 class DCtrlAsyncio(Controller, _Base):
-    def __init__(self, target, name="ctrl", fail_after=0):
+    def __init__(self, target, name="ctrl", fail_after=0, falsy=False):
         super().__init__(target)
-        self._constructed(name, fail_after)
+        self._constructed(name, fail_after, falsy)
 
     run = _beat_asyncio
 
 
 @service(flavour=threading)
 class DCtrlThread(Controller, _Base):
-    def __init__(self, target, name="ctrl", fail_after=0):
+    def __init__(self, target, name="ctrl", fail_after=0, falsy=False):
         super().__init__(target)
-        self._constructed(name, fail_after)
+        self._constructed(name, fail_after, falsy)
 
     run = _beat_thread
 
 
 @service(flavour=trio)
 class DDecoTrio(PoolDecorator, _Base):
-    def __init__(self, target, name="deco", fail_after=0):
+    def __init__(self, target, name="deco", fail_after=0, falsy=False):
         super().__init__(target)
-        self._constructed(name, fail_after)
+        self._constructed(name, fail_after, falsy)
 
     run = _beat_trio
 
